@@ -745,8 +745,15 @@ impl<W, R, T> CompilationScope<'_, W, R, T> {
                 Ok(XStaticExpr::Array(parts))
             }
             Rule::tuple => {
-                let mut iter = input.into_inner();
-                let parts = iter.next().map_or_else(
+                let mut elements = None;
+                let mut trailing_comma = false;
+                for p in input.into_inner() {
+                    match p.as_rule() {
+                        Rule::trailing_comma => trailing_comma = true,
+                        _ => elements = Some(p),
+                    }
+                }
+                let mut parts: Vec<_> = elements.map_or_else(
                     || Ok(vec![]),
                     |c| {
                         c.into_inner()
@@ -754,6 +761,10 @@ impl<W, R, T> CompilationScope<'_, W, R, T> {
                             .collect()
                     },
                 )?;
+                if parts.len() == 1 && !trailing_comma {
+                    // a parenthesised expression
+                    return Ok(parts.pop().unwrap());
+                }
                 Ok(XStaticExpr::Tuple(parts))
             }
             Rule::turbofish_cname => {
